@@ -13,7 +13,7 @@ Driver commands of the `hints` group (C05, C04).  See ENGINE_PROTOCOL.md for the
   implementation runs the query under the wrapper adapter that records the required-properties check
   of every `resolve_property` call; the oracle lives in the harness).
 * `(hints <schema> <query text hex> <ir> <args>)` → `(hints (v <vid> (static (<prop> <cand>)…)
-  (dyn <prop>…) (mand <eid>…))…)` in Vid order: what the root `ResolveInfo` (not completed) and the
+  (dyn (<prop> <op> <(ctx <vid> <field>)|(fcount <eid>)>)…) (mand <eid>…))…)` in Vid order: what the root `ResolveInfo` (not completed) and the
   `NeighborInfo`s reached from it through `edges_with_name(..).destination()` report; candidates in
   the syntax of `Driver/Cand.lean`; `(v <vid> panic)` when a hint method panics.
 * `(points <schema> <data> <query text hex> <ir> <args> (eids <eid>…))` → `(points (start <vid> …)
@@ -46,15 +46,30 @@ def insertName (n : Name) : List Name → List Name
 
 def sortNames (l : List Name) : List Name := l.foldr insertName []
 
-/-- `(static …) (dyn …) (mand …)` of the hint object `i` whose vertex `v` lives in `comp` -/
+def renderBareOp : Filter.BinOp → String
+  | .equals => "eq"
+  | .notEquals => "neq"
+  | .lessThan => "lt"
+  | .lessThanOrEqual => "le"
+  | .greaterThan => "gt"
+  | .greaterThanOrEqual => "ge"
+  | .oneOf => "one_of"
+  | _ => "?"
+
+def renderTagRef : FieldRef → String
+  | .ctx vid field _ => s!"(ctx {vid} {field})"
+  | .fcount eid _ => s!"(fcount {eid})"
+
+/-- `(static …) (dyn (<prop> <op> <tag>)…) (mand …)` of the hint object `i` whose vertex `v` lives in `comp` -/
 def infoReport (args : List (Name × Value)) (comp : Component) (v : IRVertex) (i : VInfo) : String :=
   let props := sortNames (filterSubjects v)
   let body : R String := do
     let st ← mapR (fun p => (staticallyRequired args i v p).map fun c => (p, c)) props
-    let dy ← mapR (fun p => (dynamicallyRequired args i v p).map fun c => (p, c.isSome)) props
+    let dy ← mapR (fun p => (dynamicallyRequired args i v p).map fun c => (p, c)) props
     let es ← mandatoryEdges args comp i
     let stS := String.join (st.filterMap fun (p, c) => c.map fun c => s!" ({p} {renderCandidate c})")
-    let dyS := String.join (dy.filterMap fun (p, b) => if b then some (" " ++ p) else none)
+    let dyS := String.join (dy.filterMap fun (p, c) => c.map fun (d : DynChoice) =>
+      s!" ({p} {renderBareOp d.op} {renderTagRef d.field})")
     let mdS := String.join ((sortNats (es.map (·.eid))).map fun e => s!" {e}")
     pure s!"(static{stS}) (dyn{dyS}) (mand{mdS})"
   match body with
